@@ -381,7 +381,10 @@ fn gen_tick(r: &mut Rng, hostile: bool) -> i64 {
     8 => 3,
     9 => r.range(4, 9),
     10 => *r.pick(&[29, 57, 59, 61, 63, 120]),
-    11 => r.range(1, 2),
+    // sub-second steps on the quarter-second grid (leases are on the half-second grid and the guard
+    // keeps every clean-up at least 1/4 s away from a lease boundary): liveliness assertions that
+    // arrive less than a second after the previous sign of life (seeded change C12-A)
+    11 => return *r.pick(&[NS / 4, NS / 2, 3 * NS / 4]),
     12 => 1_000_000,
     _ => *r.pick(&[(1i64 << 31) - 1, 1i64 << 31, (1i64 << 31) + 1]),
   };
@@ -551,6 +554,15 @@ fn corpus() -> Vec<(Params, Vec<Op>)> {
   // 14: the local participant discovering itself is never "new"
   let me0 = Params { me: 0, ..pa.clone() };
   res.push((me0, vec![Op::Spdp(0, Some(INF)), Op::Spdp(1, None), t(100), Op::Cleanup, Op::Spdp(0, Some(INF))]));
+  // 15: sub-second lease kept alive only by side-channel assertions every 250 ms (seeded change
+  // C12-A: an assertion less than 1 s after the recorded sign must still refresh it)
+  let q = |k: i64| Op::Tick(k * NS / 4);
+  let mut h = vec![Op::Spdp(0, Some(half(0))), Op::EpAdd(r0, 0)];
+  for _ in 0..5 {
+    h.extend([q(1), Op::Alive(0), Op::Cleanup]);
+  }
+  h.extend([q(3), Op::Cleanup]);
+  res.push((pa.clone(), guard(&pa, h)));
   res
 }
 
